@@ -8,10 +8,13 @@ package scen
 
 import (
 	"fmt"
+	"net/http/httptest"
 	"regexp"
+	"strings"
 	"time"
 
 	z "github.com/Oudwins/zog"
+	"github.com/Oudwins/zog/zhttp"
 	"zogverif/mc"
 	"zogverif/zh"
 )
@@ -148,6 +151,69 @@ func c02DeclaredCodeScenario(x *mc.X) *mc.Outcome {
 	if len(failing) != 1 || failing[0].Code != code || len(passing) != 0 {
 		x.Note("%s declared with IssueCode(%q); failing subject %v, passing subject %v; validate=%v as-field=%v", c.name, code, c.fail, c.pass, validate, field)
 		out.Viol = append(out.Viol, &mc.Violation{Key: "C02:declared-code:" + c.name, What: "a failed test does not yield exactly one issue carrying the code the test was declared with (or a satisfied test yields an issue)", Expected: fmt.Sprintf("failing: [%s]; passing: []", code), Observed: fmt.Sprintf("failing: %s; passing: %s", issueCodes(failing), issueCodes(passing))})
+	}
+	return out
+}
+
+// An input document that cannot be decoded is ONE violation, reported once at the root: it "suppresses the node's
+// own tests and children" like any un-coercible value does. One execution = one undecodable request (form with a
+// bad escape / a semicolon separator / JSON truncated, an array, a number beyond float64) × method × schema
+// (a record with required fields, failing tests, a nested record, a list and a record-level test; direct or
+// behind Ptr): exactly one issue, at $root, and no callback ran.
+func c02UndecodableScenario(x *mc.X) *mc.Outcome {
+	zh.Reset()
+	zh.Install(x, zh.PoolLIFO, zh.OrderFree)
+	bodies := []struct{ ct, body, code string }{
+		{"application/x-www-form-urlencoded", "name=John&age=%zz", "invalid_form"},
+		{"application/x-www-form-urlencoded", "name=J;age=1", "invalid_form"},
+		{"application/x-www-form-urlencoded; charset=utf-8", "tags=a&tags=%", "invalid_form"},
+		{"application/json", `{"name":"John","age":`, "invalid_json"},
+		{"application/json", `["name"]`, "invalid_json"},
+		{"application/json", `{"name":"J","age":1e999}`, "invalid_json"},
+		{"application/json; charset=utf-8", `{"name":"J",}`, "invalid_json"},
+	}
+	b := bodies[x.Choose(len(bodies), "body")]
+	method := []string{"POST", "PUT", "PATCH"}[x.Choose(3, "method")] // the methods whose urlencoded body net/http reads
+	behindPtr := x.Bool("schema is Ptr(Struct)")
+	ran := 0
+	rec := z.Struct(z.Schema{
+		"name": z.String().Min(3).Required(),
+		"age":  z.Int().GT(18).Required(),
+		"tags": z.Slice(z.String().Min(2)).Min(1),
+		"addr": z.Struct(z.Schema{"street": z.String().Required()}),
+	}).TestFunc(func(v any, c z.Ctx) bool { ran++; return false }, z.IssueCode("record_rule"))
+	type addr struct{ Street string }
+	type doc struct {
+		Name string
+		Age  int
+		Tags []string
+		Addr addr
+	}
+	req := httptest.NewRequest(method, "/?name=Q&age=3", strings.NewReader(b.body))
+	req.Header.Set("Content-Type", b.ct)
+	var m z.ZogIssueMap
+	if behindPtr {
+		var d *doc
+		m = z.Ptr(rec).Parse(zhttp.Request(req), &d)
+	} else {
+		var d doc
+		m = rec.Parse(zhttp.Request(req), &d)
+	}
+	zh.Reset()
+	var got []string
+	for _, k := range sortedKeys(m) {
+		if k != "$first" {
+			for _, is := range m[k] {
+				got = append(got, k+"|"+is.Code)
+			}
+		}
+	}
+	want := []string{"$root|" + b.code}
+	out := &mc.Outcome{Traces: 1, Nontrivial: true, Sig: fmt.Sprintf("undecodable|%s|%s|%v", b.body, method, behindPtr)}
+	out.Sample = map[string]any{"content_type": b.ct, "body": b.body, "method": method, "behind_ptr": behindPtr, "issues": got}
+	if !eqStrings(got, want) || ran != 0 {
+		x.Note("%s %s body %q into a record schema (behind Ptr=%v) with required fields, a nested record, a list and a failing record-level test", method, b.ct, b.body, behindPtr)
+		out.Viol = append(out.Viol, &mc.Violation{Key: "C02:undecodable-document:" + b.code, What: "an undecodable document must yield exactly one issue at the root and suppress the record's own tests and children", Expected: fmt.Sprintf("%v, record-level test not run", want), Observed: fmt.Sprintf("%v, record-level test ran %d times", got, ran)})
 	}
 	return out
 }
